@@ -56,7 +56,7 @@ fn render_due() -> bool {
     })
 }
 /// `tokens` (name, text) must occur in `shown` in this order, each delimited by non-alphanumeric characters
-fn render_check(kind: &str, shown: &str, tokens: &[(&str, String)]) {
+pub fn render_check(kind: &str, shown: &str, tokens: &[(&str, String)]) {
     let b = shown.as_bytes();
     let mut cur = 0usize;
     for (name, tok) in tokens {
